@@ -32,8 +32,8 @@ logging.getLogger("onnx_ir").setLevel(logging.ERROR)
 PROPERTY = "C10"
 LEVEL = "exploration"
 TIERS = {
-    "quick": {"wall": 35, "chunk": 8, "shrink_budget": 150, "shrink_wall": 40},
-    "thorough": {"wall": 900, "chunk": 8, "shrink_budget": 300, "shrink_wall": 120},
+    "quick": {"wall": 29, "optimize_wall": 6, "chunk": 8, "shrink_budget": 150, "shrink_wall": 40},
+    "thorough": {"wall": 900, "optimize_wall": 120, "chunk": 8, "shrink_budget": 300, "shrink_wall": 120},
 }
 RULE = (
     "each evaluation = one (base-directory spelling, location string, entry point) triple against a freshly built adversarial tree, or one three-step history on a single tensor object (read; change base_dir / add a hard link / swap the file for an out-pointing symlink / release; read again through any entry point); "
